@@ -85,6 +85,8 @@ pub fn prop() -> HistProp {
             let mut w = Weights::trading();
             // funding drains: the oracle is set so that the next settlement consumes about half / all / several times a holder's margin
             w.drain = 3;
+            // the owner changes ratios in between (incl. values the engine must refuse)
+            w.ecfg = 2;
             w.rewire = 2;
             w.vcfg = 1;
             w.setopen = 1;
